@@ -33,6 +33,23 @@ pub fn generate(seed: u64, index: u64, thorough: bool) -> Scenario {
     );
     sc.mrhs = false;
     sc.y.truncate(1);
+    // degenerate sample counts: the builder accepts an empty independent variable, and a
+    // single sample is legal too
+    match rng.below(40) {
+        0 => {
+            sc.x.clear();
+            sc.y[0].clear();
+            sc.weights = None;
+        }
+        1 | 2 => {
+            sc.x.truncate(1);
+            sc.y[0].truncate(1);
+            if let Some(w) = sc.weights.as_mut() {
+                w.truncate(1);
+            }
+        }
+        _ => {}
+    }
     let p = sc.model.nparams;
     let long = rng.chance(0.2);
     let n_ops = rng.usize_in(3, if long { 24 } else { 10 });
@@ -97,7 +114,7 @@ fn exec_t<T: Sc>(sc: &Scenario) -> RunReport {
         }
     }
     for c in closures {
-        for len in [0usize, n.saturating_sub(1), n + 1, 2 * n] {
+        for len in [0usize, n.saturating_sub(1), n + 1, 2 * n + 3] {
             if len == n {
                 continue;
             }
